@@ -652,10 +652,17 @@ Definition plain_ok (te : Z'.tenv) (nm : names) (G : decls) (ntmp : nat) : bool 
   forallb (fun s => forallb (fun i => negb (Pos.eqb (sid nm s) (n_tmp nm i))) (seq 0 ntmp)) (roots G) &&
   forallb (fun i => match tmp_decl te nm i with Some w => (0 <? w) && (w <? 1024) | None => false end) (seq 0 ntmp).
 
+(* which assignments a block of the given kind may contain: an always_comb block (ff = false) blocking ones only; an
+   always_ff block (ff = true) non-blocking assignments to whole signals (what RTL/Eval.v models) and blocking
+   assignments to temporaries *)
+Definition assign_mode_ok (ff : bool) (l : lhs) (b : bool) : bool :=
+  if ff then match l with LTmp _ => b | LSig _ [] => negb b | _ => false end else b.
+
 Section CombOk.
 Variable te : Z'.tenv.
 Variable nm : names.
 Variable ntmp : nat.
+Variable ff : bool.
 
 (* tmp = e : the declared width is the annotated one; the kind of value is statically known (a Bits value in an explicit
    temporary, an int built from literals / closure ints / loop variables in an int-typed one); a re-assignment keeps
@@ -673,12 +680,12 @@ Definition tmp_assign_ok (E : tenv) (i : nat) (e : expr) : bool :=
   end.
 Definition typed (E : tenv) (s : stmt) : bool := match tcs impl E s with Some _ => true | None => false end.
 
-(* statements of a combinational block covered by the block theorem: blocking assignments, if / elif / else; the block
-   type-checks; no for loop (TranslateSound.tr_for_sound_partial) *)
+(* statements covered by the block theorems: assignments of the block's kind, if / elif / else; the block
+   type-checks; no for loop (stays under TranslateSound.tr_block_sound_partial) *)
 Fixpoint cstmt_ok (E : tenv) (s : stmt) {struct s} : bool :=
   match s with
   | SAssign _ l e b =>
-      b && assign_ok te nm E l e true && typed E s && match l with LTmp i => tmp_assign_ok E i e | _ => true end
+      assign_mode_ok ff l b && assign_ok te nm E l e b && typed E s && match l with LTmp i => tmp_assign_ok E i e | _ => true end
   | SIf _ c t f =>
       sv_ok te nm E None c && typed E s &&
       (fix go (l : list stmt) (E : tenv) : bool :=
@@ -689,5 +696,8 @@ Fixpoint cstmt_ok (E : tenv) (s : stmt) {struct s} : bool :=
   end.
 Fixpoint cstmts_ok (E : tenv) (l : list stmt) : bool :=
   match l with [] => true | x :: r => cstmt_ok E x && cstmts_ok (env_after E x) r end.
-Definition comb_ok (G : decls) (b : list stmt) : bool := cstmts_ok (init_tenv G) b.
 End CombOk.
+Definition comb_ok (te : Z'.tenv) (nm : names) (ntmp : nat) (G : decls) (b : list stmt) : bool :=
+  cstmts_ok te nm ntmp false (init_tenv G) b.
+Definition ff_ok (te : Z'.tenv) (nm : names) (ntmp : nat) (G : decls) (b : list stmt) : bool :=
+  cstmts_ok te nm ntmp true (init_tenv G) b.
